@@ -10,8 +10,8 @@ parse/serialize round trip) is checked by the bounded run-time stand-in against 
 import z3
 
 from pyvc.unit import unit
-from pyvc.proxies import And, Or, Not, Implies, SBool, SInt, SStr, SDict
-from pyvc import heap as H
+from pyvc.proxies import And, Or, Not, Implies, SBool, SInt, SStr, SDict, Len
+from pyvc import heap as H, core
 
 LEVEL = "other"
 EXPLANATION = ("MIXED: key-set behaviour of HTTPHeaders (__delitem__, __contains__, __setitem__, __len__) proved by SMT from any state "
@@ -160,6 +160,250 @@ def u_getitem(c):
     c.oblige("frame/list-view-unchanged", SBool(z3.ForAll([k], z3.And(z3.Select(h._as_list.has, k) == z3.Select(L0[0], k), z3.Select(h._as_list.val, k) == z3.Select(L0[1], k)))), kind="frame")
     c.oblige("frame/memo-of-other-names-untouched", SBool(z3.ForAll([k], z3.Implies(k != key, z3.And(
         z3.Select(h._combined_cache.has, k) == z3.Select(C0[0], k), z3.Select(h._combined_cache.val, k) == z3.Select(C0[1], k))))), kind="frame")
+    c.oblige("inv/preserved", inv_after(h), kind="inv-preserve")
+
+
+class _ValList:
+    """the value list of one name, mutable in place: list operations are written back into the symbolic list view (dict value = z3 Seq of strings)"""
+    def __init__(self, d, kz, t):
+        self.d, self.kz, self.t = d, kz, t
+
+    def _store(self, t):
+        self.t = t
+        self.d.val = z3.Store(self.d.val, self.kz, t)
+
+    def append(self, v):
+        self._store(z3.Concat(self.t, z3.Unit(v.t if isinstance(v, SStr) else z3.StringVal(v))))
+
+    def __iter__(self):
+        return _Joinable.__iter__(self)
+
+    def _last(self, k):
+        if k != -1:
+            raise core.Unsupported("value list indexed with %r" % (k,))
+        return z3.Length(self.t) - 1
+
+    def __getitem__(self, k):
+        return SStr(self.t[self._last(k)])
+
+    def __setitem__(self, k, v):
+        i = self._last(k)
+        self._store(z3.Concat(z3.SubSeq(self.t, 0, i), z3.Unit(v.t if isinstance(v, SStr) else z3.StringVal(v))))
+
+
+class _ValidOnly:
+    """_ABNF.field_name / field_value as uninterpreted predicates (what they accept is C01 / C07 / C43)"""
+    def __init__(self, c, fname):
+        self.c, self.f = c, z3.Function(fname, z3.StringSort(), z3.BoolSort())
+
+    def fullmatch(self, text):
+        t = text.t if isinstance(text, SStr) else z3.StringVal(text)
+        return True if self.c.branch(self.f(t)) else None
+
+
+@unit("C06", "HTTPHeaders.add", [(M, "HTTPHeaders.add"), (M, "HTTPHeaders.__setitem__"), (M, "HTTPHeaders.__contains__")])
+def u_add(c):
+    """add(name, value), from any state satisfying Inv: a name or value the grammar refuses raises HTTPInputError and changes nothing; otherwise the value is appended to the
+    name's list (a new one-element list for a new name, which also memoizes it), the memo of a name that now has several values is dropped (this is the order-dependent part: a
+    stale memo would make h[name] disagree with get_list), every other name keeps its list and memo, the name becomes the target of continuation lines, Inv is preserved."""
+    import types
+    import tornado.httputil as U
+    if not c.symbolic:
+        h = U.HTTPHeaders()
+        for nm, k in (("Foo", c.rng.randint(0, 2) if c.rng else 1), ("Bar-Baz", 1)):
+            for j in range(k):
+                h.add(nm, "v%d" % j)
+        if c.rng and c.rng.random() < 0.5 and "Foo" in h:
+            h["foo"]
+        name = c.rng.choice(["foo", "FOO", "bar-BAZ", "new-name", "bad name", ""]) if c.rng else "fOO"
+        value = c.rng.choice(["x", "a,b", "", "bad\nvalue"]) if c.rng else "x"
+        lists0, cache0 = {k: list(v) for k, v in h._as_list.items()}, dict(h._combined_cache)
+        out = c.call(c.fn(M, "HTTPHeaders.add"), h, name, value)
+        c.only_raises(out, (U.HTTPInputError,))
+        nn = U._normalize_header(name)
+        if out.raised:
+            c.oblige("frame/a-refused-add-changes-nothing", lists0 == h._as_list and cache0 == h._combined_cache, kind="frame")
+            return
+        c.oblige("post/value-appended-to-the-name's-list", h._as_list.get(nn) == lists0.get(nn, []) + [value])
+        c.oblige("post/memo-dropped-when-the-name-has-several-values-else-it-is-the-value", (nn not in h._combined_cache) if nn in lists0 else h._combined_cache.get(nn) == value)
+        c.oblige("frame/other-names-untouched", {k: v for k, v in h._as_list.items() if k != nn} == {k: v for k, v in lists0.items() if k != nn}
+                 and {k: v for k, v in h._combined_cache.items() if k != nn} == {k: v for k, v in cache0.items() if k != nn}, kind="frame")
+        c.oblige("post/continuation-lines-now-extend-this-name", h._last_key == nn)
+        c.oblige("inv/preserved", set(h._combined_cache) <= set(h._as_list), kind="inv-preserve")
+        return
+    h, norm = mk(c, wf=False)
+    d = h._as_list
+    d.vwrap = None
+    real_get = type(d).__getitem__
+
+    class ListView(type(d)):
+        __slots__ = ()
+
+        def __getitem__(self, k):
+            kz = self.kun(k)
+            if not c.branch(z3.Select(self.has, kz)):
+                raise KeyError(k)
+            return _ValList(self, kz, z3.Select(self.val, kz))
+    lv = ListView(d.has, d.val, d.size, d.kun, d.vwrap, d.vun, enum=d.enum, idx=d.idx)
+    h._as_list = lv
+    name, value = c.str("name"), c.str("value")
+    L0, C0 = (lv.has, lv.val), (h._combined_cache.has, h._combined_cache.val)
+    abnf = types.SimpleNamespace(field_name=_ValidOnly(c, "valid_field_name"), field_value=_ValidOnly(c, "valid_field_value"))
+    with c.patched((U, "_normalize_header", norm_stub(c, norm)), (U, "_ABNF", abnf), (U, "to_unicode", lambda v: v)):
+        out = c.call(c.fn(M, "HTTPHeaders.add"), h, name, value)
+    c.only_raises(out, (U.HTTPInputError,))
+    key = norm(name.t)
+    k = z3.String("ok")
+    same_lists = z3.ForAll([k], z3.And(z3.Select(h._as_list.has, k) == z3.Select(L0[0], k), z3.Select(h._as_list.val, k) == z3.Select(L0[1], k)))
+    same_cache = z3.ForAll([k], z3.And(z3.Select(h._combined_cache.has, k) == z3.Select(C0[0], k), z3.Select(h._combined_cache.val, k) == z3.Select(C0[1], k)))
+    valid = z3.And(abnf.field_name.f(name.t), abnf.field_value.f(value.t))
+    c.oblige("raises/HTTPInputError-exactly-when-the-grammar-refuses-the-name-or-the-value", SBool(valid) == out.returned)
+    if out.raised:
+        c.cover("add/refused")
+        c.oblige("frame/a-refused-add-changes-nothing", SBool(z3.And(same_lists, same_cache)), kind="frame")
+        return
+    c.cover("add/accepted")
+    was = z3.Select(L0[0], key)
+    c.oblige("post/value-appended-to-the-name's-list", SBool(z3.And(z3.Select(h._as_list.has, key),
+             z3.Select(h._as_list.val, key) == z3.If(was, z3.Concat(z3.Select(L0[1], key), z3.Unit(value.t)), z3.Unit(value.t)))))
+    c.oblige("post/memo-dropped-when-the-name-has-several-values-else-it-is-the-value", SBool(z3.If(was, z3.Not(z3.Select(h._combined_cache.has, key)),
+             z3.And(z3.Select(h._combined_cache.has, key), z3.Select(h._combined_cache.val, key) == value.t))))
+    c.oblige("frame/other-names-untouched", SBool(z3.ForAll([k], z3.Implies(k != key, z3.And(
+        z3.Select(h._as_list.has, k) == z3.Select(L0[0], k), z3.Select(h._as_list.val, k) == z3.Select(L0[1], k),
+        z3.Select(h._combined_cache.has, k) == z3.Select(C0[0], k), z3.Select(h._combined_cache.val, k) == z3.Select(C0[1], k))))), kind="frame")
+    lk = h._last_key
+    c.oblige("post/continuation-lines-now-extend-this-name", SBool((lk.t if isinstance(lk, SStr) else z3.StringVal(lk)) == key) if lk is not None else False)
+    c.oblige("inv/preserved", inv_after(h), kind="inv-preserve")
+
+
+@unit("C06", "HTTPHeaders.parse_line", [(M, "HTTPHeaders.parse_line")], z3_ms=2500, cvc5_ms=30000)
+def u_parse_line(c):
+    """one header line, from any state satisfying Inv (+ every list non-empty, the continuation target present): an empty line changes nothing; a line starting with
+    whitespace extends the LAST value of the continuation target by ' ' + the stripped text (refused with HTTPInputError and no change when there is no target or the text is
+    not a field value) and drops that name's memo; any other line is add(name-before-the-first-colon, stripped rest) or HTTPInputError when there is no colon; nothing else changes."""
+    import types
+    import tornado.httputil as U
+    if not c.symbolic:
+        h = U.HTTPHeaders()
+        h.add("Foo", "1"); h.add("Bar", "2")
+        if c.rng and c.rng.random() < 0.5:
+            h["bar"]
+        line = c.rng.choice(["X: 1", "foo: 2\r\n", " cont", "\tcont\r\n", "", "\r\n", "nocolon", "Bar:  padded  ", " bad\x00cont", ": novalue-name"]) if c.rng else " cont"
+        lists0, cache0, lk0 = {k: list(v) for k, v in h._as_list.items()}, dict(h._combined_cache), h._last_key
+        out = c.call(c.fn(M, "HTTPHeaders.parse_line"), h, line)
+        c.only_raises(out, (U.HTTPInputError,))
+        body = line[:-2] if line.endswith("\r\n") else (line[:-1] if line.endswith("\n") else line)
+        if out.raised or not body:
+            c.oblige("frame/a-refused-or-empty-line-changes-nothing", lists0 == h._as_list and cache0 == h._combined_cache, kind="frame")
+        elif body[0] in " \t":
+            want = {k: list(v) for k, v in lists0.items()}
+            want[lk0][-1] += " " + body.strip(" \t")
+            c.oblige("post/continuation-extends-the-last-value-of-the-target-and-drops-its-memo", h._as_list == want and lk0 not in h._combined_cache)
+        else:
+            nm, _, v = body.partition(":")
+            c.oblige("post/a-field-line-is-add(name, stripped value)", h.get_list(nm)[-1:] == [v.strip(" \t")])
+        c.oblige("inv/preserved", set(h._combined_cache) <= set(h._as_list), kind="inv-preserve")
+        return
+    h, norm = mk(c, wf=False)
+    d = h._as_list
+    d.vwrap = None
+
+    class ListView(type(d)):
+        __slots__ = ()
+
+        def __getitem__(self, k):
+            kz = self.kun(k)
+            if not c.branch(z3.Select(self.has, kz)):
+                raise KeyError(k)
+            return _ValList(self, kz, z3.Select(self.val, kz))
+    lv = ListView(d.has, d.val, d.size, d.kun, d.vwrap, d.vun, enum=d.enum, idx=d.idx)
+    h._as_list = lv
+    has_target = c.choose("continuation-target", ["none", "a-name"])
+    if has_target == "a-name":
+        h._last_key = c.str("last_key")
+        c.assume_z3(z3.And(z3.Select(lv.has, h._last_key.t), z3.Length(z3.Select(lv.val, h._last_key.t)) >= 1))      # Inv2 / Inv3 (see the docstring)
+    body = c.str("body")
+    c.assume_z3(z3.Not(z3.SuffixOf(z3.StringVal("\n"), body.t)))
+    ending = c.choose("line-ending", ["", "\n", "\r\n"])
+    if ending == "\n":
+        c.assume_z3(z3.Not(z3.SuffixOf(z3.StringVal("\r"), body.t)))        # (else the CR belongs to the line ending)
+    cut = object()           # what m.start() returns: the position where the line ending starts, i.e. len(body)
+
+    class _Line(SStr):
+        """body + line ending.  Cutting it at the start of the line ending gives `body` back: that string-theory lemma is proved below on its own and applied here
+        by construction (inside larger queries both solvers are slow to find it)"""
+        __slots__ = ()
+
+        def __getitem__(self, k):
+            if isinstance(k, slice) and k.start is None and k.step is None and k.stop is cut:
+                return body
+            return SStr.__getitem__(self, k)
+    if ending:
+        line = _Line((body + ending).t)
+        c.oblige("lemma/(body + line-ending)[:len(body)] == body", SBool(z3.SubString(z3.Concat(body.t, z3.StringVal(ending)), 0, z3.Length(body.t)) == body.t), kind="lemma")
+    else:
+        line = body
+
+    class M_:
+        def start(self):
+            return cut
+
+    def search(pat, text, *a):
+        if pat != r"\r?\n$" or text is not line:
+            raise core.Unsupported("re.search(%r) in parse_line" % (pat,))
+        return M_() if ending else None
+    L0, C0 = (lv.has, lv.val), (h._combined_cache.has, h._combined_cache.val)
+    lk0 = h._last_key
+    abnf = types.SimpleNamespace(field_name=_ValidOnly(c, "valid_field_name"), field_value=_ValidOnly(c, "valid_field_value"))
+    adds = []
+
+    def add_stub(self_, name_, value_, *, _chars_are_bytes=True):
+        adds.append((name_, value_))
+        if c.choose("add", ["accepts", "refuses"]) == "refuses":
+            raise U.HTTPInputError("refused by add")
+    with c.patched((U, "_normalize_header", norm_stub(c, norm)), (U, "_ABNF", abnf), (U, "to_unicode", lambda v: v), (U, "re", types.SimpleNamespace(search=search)),
+                   (U.HTTPHeaders, "add", add_stub)):
+        out = c.call(c.fn(M, "HTTPHeaders.parse_line"), h, line)
+    c.only_raises(out, (U.HTTPInputError,))
+    k = z3.String("ok")
+    same_lists = z3.ForAll([k], z3.And(z3.Select(h._as_list.has, k) == z3.Select(L0[0], k), z3.Select(h._as_list.val, k) == z3.Select(L0[1], k)))
+    same_cache = z3.ForAll([k], z3.And(z3.Select(h._combined_cache.has, k) == z3.Select(C0[0], k), z3.Select(h._combined_cache.val, k) == z3.Select(C0[1], k)))
+    first = z3.SubString(body.t, 0, 1)
+    is_ws = z3.Or(first == z3.StringVal(" "), first == z3.StringVal("\t"))
+    if out.raised:
+        c.cover("parse_line/refused")
+        c.oblige("frame/a-refused-line-changes-nothing", SBool(z3.And(same_lists, same_cache)), kind="frame")
+        c.oblige("raises/only-a-continuation-problem-a-missing-colon-or-add's-refusal", SBool(z3.Or(is_ws, z3.Not(z3.Contains(body.t, z3.StringVal(":"))), z3.BoolVal(len(adds) == 1))))
+        return
+    c.cover("parse_line/accepted")
+    others_same = lambda tgt: z3.ForAll([k], z3.Implies(k != tgt, z3.And(
+        z3.Select(h._as_list.has, k) == z3.Select(L0[0], k), z3.Select(h._as_list.val, k) == z3.Select(L0[1], k),
+        z3.Select(h._combined_cache.has, k) == z3.Select(C0[0], k), z3.Select(h._combined_cache.val, k) == z3.Select(C0[1], k))))
+    if c.branch(z3.Length(body.t) == 0):
+        c.oblige("post/an-empty-line-changes-nothing", SBool(z3.And(same_lists, same_cache)))
+    elif c.branch(is_ws):
+        if lk0 is None:
+            c.oblige("raises/a-continuation-without-a-target-is-refused", False)
+            return
+        tgt = lk0.t
+        old = z3.Select(L0[1], tgt)
+        n = z3.Length(old)
+        ext = z3.Concat(z3.SubSeq(old, 0, n - 1), z3.Unit(z3.Concat(old[n - 1], z3.StringVal(" "), body.strip(U.HTTP_WHITESPACE).t)))
+        c.oblige("post/continuation-extends-the-last-value-of-the-target", SBool(z3.And(z3.Select(h._as_list.has, tgt), z3.Select(h._as_list.val, tgt) == ext)))
+        c.oblige("post/continuation-drops-the-target's-memo", SBool(z3.Not(z3.Select(h._combined_cache.has, tgt))))
+        c.oblige("post/continuation-text-was-a-valid-field-value", SBool(abnf.field_value.f(body.strip(U.HTTP_WHITESPACE).t)))
+        c.oblige("frame/continuation-leaves-other-names-untouched", SBool(others_same(tgt)), kind="frame")
+    else:
+        # a field line: exactly one call add(name, value) (add is under its own contract, unit HTTPHeaders.add) and nothing else
+        c.oblige("post/a-field-line-is-one-add-call", len(adds) == 1)
+        if len(adds) == 1:
+            nm, val = adds[0]
+            nmt = nm.t if isinstance(nm, SStr) else z3.StringVal(nm)
+            i = z3.IndexOf(body.t, z3.StringVal(":"), 0)          # (position of the first colon)
+            rest = z3.SubString(body.t, i + z3.Length(z3.StringVal(":")), z3.Length(body.t))
+            c.oblige("post/the-name-is-the-text-before-the-first-colon", SBool(z3.And(i >= 0, nmt == z3.SubString(body.t, 0, i))))
+            c.oblige("post/the-value-is-the-rest-stripped-of-surrounding-whitespace", SBool((val.t if isinstance(val, SStr) else z3.StringVal(val)) == SStr(rest).strip(U.HTTP_WHITESPACE).t))
+        c.oblige("frame/a-field-line-changes-the-map-only-through-add", SBool(z3.And(same_lists, same_cache)), kind="frame")
     c.oblige("inv/preserved", inv_after(h), kind="inv-preserve")
 
 
